@@ -89,6 +89,12 @@ void h_c09_emit_copy(void) {
   __CPROVER_assume(cap <= CQV_MAXBUF && off <= cap);
   uint8_t *dst = malloc(cap);
   __CPROVER_assume(dst != NULL);
+#ifdef CQV_EXP1
+  __CPROVER_assume(len < 68);
+#endif
+#ifdef CQV_EXP2
+  __CPROVER_assume(off == 0);
+#endif
   uint8_t *r = snappy_emit_copy(dst + off, offset, len);
   CQV_CANARY("emit_copy returns");
 }
